@@ -8,11 +8,12 @@
    - allocation failures are not modelled;
    - the cached object pointers (imtg->obj, initiator.location.object.obj) are
      represented by the gp_index they would point to, plus one bit [i_ok] that
-     says whether the cached pointer of an object initiator was ever
-     initialised: hwloc_memattr_set_value() copies a stack structure whose
-     .obj field is never written (to_internal_location), so a freshly appended
-     object initiator carries an indeterminate pointer until the next refresh.
-     Reading it (get_initiators, get_best_initiator) is reported as [EUB]. *)
+     says whether the cached pointer of an object initiator is initialised:
+     hwloc_memattr_set_value() sets it (since fix c37319b), the raw internal
+     entry point hwloc_internal_memattr_set_value() copies whatever its caller
+     put there (the XML import leaves it indeterminate until the refresh at
+     the end of load).  Reading an indeterminate one is reported as [EUB]; the
+     invariant shows it cannot happen in histories of the public API. *)
 From Coq Require Import List NArith Bool.
 From HV Require Import Base.BSet Gen.Tables.
 Import ListNotations.
@@ -83,10 +84,7 @@ Definition match_iloc (q st : iloc) : bool :=
 Record imi := Imi { i_loc : iloc; i_val : N; i_ok : bool }.
 Record imtg := Imtg { g_type : N; g_gp : N; g_os : N; g_inits : list imi; g_val : N }.
 Record imattr := Imattr { a_name : list N; a_flags : N; a_conv : bool; a_valid : bool; a_tgs : list imtg }.
-(* [m_alloc]: ids of the attributes whose targets array was ever allocated
-   (imattr->targets != NULL even when nr_targets went back to 0); only
-   hwloc_internal_memattrs_dup() looks at the difference. *)
-Record mstate := MS { m_topo : topo; m_attrs : list imattr; m_alloc : list N }.
+Record mstate := MS { m_topo : topo; m_attrs : list imattr }.
 
 Definition has (f bit : N) : bool := negb (N.land f bit =? 0).
 Definition need_init (a : imattr) : bool := has (a_flags a) HWLOC_MEMATTR_FLAG_NEED_INITIATOR.
@@ -124,7 +122,7 @@ Fixpoint firstnN {A} (n : N) (l : list A) : list A :=
   end.
 Definition get_attr (s : mstate) (id : N) : option imattr := nth_errN (m_attrs s) id.
 Definition put_attr (s : mstate) (id : N) (a : imattr) : mstate :=
-  MS (m_topo s) (set_nthN id a (m_attrs s)) (m_alloc s).
+  MS (m_topo s) (set_nthN id a (m_attrs s)).
 
 Fixpoint number_from {A} (k : N) (l : list A) : list (N * A) :=
   match l with [] => [] | x :: r => (k, x) :: number_from (N.succ k) r end.
@@ -182,7 +180,7 @@ Definition need_refresh (l : list imattr) : list imattr :=
   map (fun a => if a_conv a then a else Imattr (a_name a) (a_flags a) (a_conv a) false (a_tgs a)) l.
 
 (* state right after hwloc_topology_load() *)
-Definition init_state (t : topo) : mstate := MS t (refresh_all t (need_refresh init_attrs)) [].
+Definition init_state (t : topo) : mstate := MS t (refresh_all t (need_refresh init_attrs)).
 
 (* ------------------------------------------------------------------ *)
 (* attribute table *)
@@ -199,7 +197,7 @@ Definition register (s : mstate) (name : list N) (flags : N) : mstate * res N :=
   else if N.land flags flags_hl =? 0 then (s, Err EINVAL)
   else if N.land flags flags_hl =? flags_hl then (s, Err EINVAL)
   else if name_used (m_attrs s) name then (s, Err EBUSY)
-  else (MS (m_topo s) (m_attrs s ++ [Imattr name flags false true []]) (m_alloc s),
+  else (MS (m_topo s) (m_attrs s ++ [Imattr name flags false true []]),
         Ok (N.of_nat (length (m_attrs s)))).
 
 Fixpoint index_of {A} (p : A -> bool) (l : list A) (k : N) : option N :=
@@ -237,10 +235,15 @@ Fixpoint upsert_tg (ty gp os : N) (f : imtg -> imtg) (l : list imtg) : list imtg
 Definition find_init (is : list imi) (q : iloc) : option imi := find (fun i => match_iloc q (i_loc i)) is.
 
 (* hwloc__memattr_target_get_initiator(create=1) + "imi->value = value" *)
-Fixpoint upsert_init (q : iloc) (v : N) (is : list imi) : list imi :=
+(* [objok]: whether the caller's internal location carries an initialised cached
+   object pointer: true for hwloc_memattr_set_value (to_internal_location sets
+   it), false for the raw internal entry point as used by the XML import (a stack
+   structure whose .obj is never written; harmless there because the attribute
+   is refreshed before any read) *)
+Fixpoint upsert_init (objok : bool) (q : iloc) (v : N) (is : list imi) : list imi :=
   match is with
-  | [] => [Imi q v (match q with ICpu _ => true | IObj _ _ => false end)]
-  | i :: r => if match_iloc q (i_loc i) then Imi (i_loc i) v (i_ok i) :: r else i :: upsert_init q v r
+  | [] => [Imi q v (match q with ICpu _ => true | IObj _ _ => objok end)]
+  | i :: r => if match_iloc q (i_loc i) then Imi (i_loc i) v (i_ok i) :: r else i :: upsert_init objok q v r
   end.
 
 (* hwloc__memattr_get_initiator_from_location *)
@@ -264,12 +267,8 @@ Definition conv_value (id : N) (node : obj) : res N :=
     if o_hascpuset node then Ok (weight64 (o_cpuset node)) else Err EINVAL
   else Err EUB.  (* assert(0) *)
 
-(* realloc() of imattr->targets happened *)
-Definition mark_alloc (b : bool) (id : N) (s : mstate) : mstate :=
-  if b then MS (m_topo s) (m_attrs s) (id :: m_alloc s) else s.
-
 (* hwloc__internal_memattr_set_value *)
-Definition set_core (loaded : bool) (s : mstate) (id ty gp os : N) (il : option iloc) (v : N) : mstate * res unit :=
+Definition set_core (loaded objok : bool) (s : mstate) (id ty gp os : N) (il : option iloc) (v : N) : mstate * res unit :=
   match get_attr s id with
   | None => (s, Err EINVAL)
   | Some a =>
@@ -278,12 +277,12 @@ Definition set_core (loaded : bool) (s : mstate) (id ty gp os : N) (il : option 
     else
       let a1 := if loaded && negb (a_valid a) then refresh_attr (m_topo s) a else a in
       let f := fun g => match il with
-                        | Some q => if need_init a then Imtg (g_type g) (g_gp g) (g_os g) (upsert_init q v (g_inits g)) (g_val g)
+                        | Some q => if need_init a then Imtg (g_type g) (g_gp g) (g_os g) (upsert_init objok q v (g_inits g)) (g_val g)
                                     else Imtg (g_type g) (g_gp g) (g_os g) (g_inits g) v
                         | None => Imtg (g_type g) (g_gp g) (g_os g) (g_inits g) v
                         end in
       let (tgs, created) := upsert_tg ty gp os f (a_tgs a1) in
-      (mark_alloc created id (put_attr s id (Imattr (a_name a1) (a_flags a1) (a_conv a1) (if created then false else a_valid a1) tgs)), Ok tt)
+      (put_attr s id (Imattr (a_name a1) (a_flags a1) (a_conv a1) (if created then false else a_valid a1) tgs), Ok tt)
   end.
 
 (* hwloc_memattr_set_value *)
@@ -295,9 +294,9 @@ Definition set_value (s : mstate) (id : N) (tgt : option obj) (init : option loc
     else match init with
          | Some l => match to_internal l with
                      | None => (s, Err EINVAL)
-                     | Some q => set_core true s id (o_type o) (o_gp o) (o_os o) (Some q) v
+                     | Some q => set_core true true s id (o_type o) (o_gp o) (o_os o) (Some q) v
                      end
-         | None => set_core true s id (o_type o) (o_gp o) (o_os o) None v
+         | None => set_core true true s id (o_type o) (o_gp o) (o_os o) None v
          end
   end.
 
@@ -518,23 +517,12 @@ Definition default_nodeset (s : mstate) (flags : N) : res bset :=
 (* hwloc_topology_restrict (successful): the topology is replaced by [t'] and
    hwloc_internal_memattrs_need_refresh() is called; the model does not compute
    [t'] (that is C08), it is an input. *)
-Definition retopo (s : mstate) (t' : topo) : mstate := MS t' (need_refresh (m_attrs s)) (m_alloc s).
+Definition retopo (s : mstate) (t' : topo) : mstate := MS t' (need_refresh (m_attrs s)).
 
 (* hwloc_topology_dup + continue with the copy: hwloc_internal_memattrs_dup
    clears CACHE_VALID of every attribute and all cached pointers *)
 Definition dup_switch (s : mstate) : mstate :=
-  MS (m_topo s) (map (fun a => Imattr (a_name a) (a_flags a) (a_conv a) false (a_tgs a)) (m_attrs s)) (m_alloc s).
-
-(* hwloc_internal_memattrs_dup memcpy()s the attribute array and then skips
-   ("continue") attributes with nr_targets == 0 without clearing the copied
-   [targets] pointer: if that array was allocated earlier (all its targets were
-   dropped by a refresh since), old and new topology now share it and both
-   free() it. *)
-Definition dup_shares (s : mstate) : bool :=
-  existsb (fun e => match snd e with
-                    | Imattr _ _ _ _ [] => existsb (N.eqb (fst e)) (m_alloc s)
-                    | _ => false
-                    end) (number_from 0 (m_attrs s)).
+  MS (m_topo s) (map (fun a => Imattr (a_name a) (a_flags a) (a_conv a) false (a_tgs a)) (m_attrs s)).
 
 (* XML export (hwloc__xml_export_memattrs) followed by import into a fresh
    topology (hwloc__xml_import_memattr, hwloc__xml_import_memattr_value) and the
@@ -542,9 +530,9 @@ Definition dup_shares (s : mstate) : bool :=
    topology. *)
 Definition xml_import_values (s : mstate) (id : N) (need : bool) (g : imtg) : mstate :=
   if need then
-    fold_left (fun s i => fst (set_core false s id (g_type g) (g_gp g) MEMATTR_OS_NONE (Some (i_loc i)) (i_val i)))
+    fold_left (fun s i => fst (set_core false false s id (g_type g) (g_gp g) MEMATTR_OS_NONE (Some (i_loc i)) (i_val i)))
               (g_inits g) s
-  else fst (set_core false s id (g_type g) (g_gp g) MEMATTR_OS_NONE None (g_val g)).
+  else fst (set_core false false s id (g_type g) (g_gp g) MEMATTR_OS_NONE None (g_val g)).
 
 Definition xml_import_attr (s : mstate) (e : N * imattr) : mstate :=
   let (id, a) := e in
@@ -565,9 +553,9 @@ Definition xml_import_attr (s : mstate) (e : N * imattr) : mstate :=
     end.
 
 Definition xml_switch (s : mstate) (t' : topo) : mstate :=
-  let s0 := MS t' init_attrs [] in
+  let s0 := MS t' init_attrs in
   let s1 := fold_left xml_import_attr (number_from 0 (m_attrs s)) s0 in
-  MS t' (refresh_all t' (need_refresh (m_attrs s1))) (m_alloc s1).
+  MS t' (refresh_all t' (need_refresh (m_attrs s1))).
 
 (* sentinels for the driver *)
 Definition gp_none : N := MEMATTR_GP_NONE.
@@ -614,7 +602,7 @@ Definition step (s : mstate) (o : op) : mstate * out :=
   | OSet id t i f v => let (s', r) := set_value s id t i f v in (s', RUnit r)
   | OISet id ty gp os il v =>
       if (id =? HWLOC_MEMATTR_ID_CAPACITY) || (id =? HWLOC_MEMATTR_ID_LOCALITY) then (s, RUnit (Err EINVAL))
-      else let (s', r) := set_core true s id ty gp os il v in (s', RUnit r)
+      else let (s', r) := set_core true false s id ty gp os il v in (s', RUnit r)
   | OGet id t i f => let (s', r) := get_value s id t i f in (s', RNum r)
   | OTargets id i f m tn => let (s', r) := get_targets s id i f m tn in (s', RTargets r)
   | OInits id t f m n => let (s', r) := get_initiators s id t f m n in (s', RInits r)
@@ -623,7 +611,7 @@ Definition step (s : mstate) (o : op) : mstate * out :=
   | OLocal l f m n => (s, RNodes (local_numanodes s l f m n))
   | ODefNodes f => (s, RSet (default_nodeset s f))
   | ORetopo t' => (retopo s t', RUnit (Ok tt))
-  | ODup => (dup_switch s, RUnit (if dup_shares s then Err EUB else Ok tt))
+  | ODup => (dup_switch s, RUnit (Ok tt))
   | OXml t' => (xml_switch s t', RUnit (Ok tt))
   end.
 
